@@ -12,7 +12,7 @@ SRC=/tmp/seed$SET-$ID/$L
 DST=/verif/seeded/$ID-$L$SET
 WT=/tmp/seedrun$SET-$ID-$L
 mkdir -p $DST
-cp $SRC/patch.diff $SRC/demo.py $DST/ 2>/dev/null
+[ -f $DST/patch.diff ] || cp $SRC/patch.diff $DST/ 2>/dev/null; cp $SRC/demo.py $DST/ 2>/dev/null
 cp $SRC/notes.md $DST/ 2>/dev/null
 git -C /repo worktree remove --force $WT 2>/dev/null
 git -C /repo worktree add -q $WT HEAD || exit 2
